@@ -5,14 +5,16 @@ use rand::{rngs::StdRng, Rng, SeedableRng};
 use serde_json::{json, Value};
 use vh::{guarded, proj, proj::Mode, read_ndjson, Out};
 
-fn run_retain(old: &Value, keep: &[bool]) -> Result<(Value, Value, Vec<u32>), String> {
+/// The filter is a TOTAL predicate on u32: `keep` answers for the ids of the registry, `outside` for
+/// every other number (a predicate like `|_| true` or `|i| i != k` accepts numbers that are no ids).
+fn run_retain(old: &Value, keep: &[bool], outside: bool) -> Result<(Value, Value, Vec<u32>), String> {
     let mut reg = proj::un_registry(old);
     let keep = keep.to_vec();
     guarded(move || {
         let mut calls = vec![];
         let map = reg.retain(|i| {
             calls.push(i);
-            keep.get(i as usize).copied().unwrap_or(false)
+            keep.get(i as usize).copied().unwrap_or(outside)
         });
         let pairs: Vec<Value> = map.iter().map(|(k, v)| json!([k, v])).collect();
         (json!(pairs), proj::registry(Mode::Plain, &reg), calls)
@@ -79,8 +81,10 @@ fn replay(cases: &str, outp: &str) {
         eprintln!("@{ci}");
         let keep: Vec<bool> = c["keep"].as_array().unwrap().iter().map(|b| b.as_bool().unwrap()).collect();
         let mut mism: Vec<(&str, String)> = vec![];
-        match run_retain(&c["old"], &keep) {
-            Err(p) => mism.push(("c10", format!("panic: {p}"))),
+        let outs: Vec<bool> = match c.get("outside").and_then(|o| o.as_bool()) { Some(o) => vec![o], None => vec![false, true] };
+        for outside in outs {
+        match run_retain(&c["old"], &keep, outside) {
+            Err(p) => mism.push(("c10", format!("panic (filter answers {outside} outside the ids): {p}"))),
             Ok((map, new, _calls)) => {
                 if sorted_pairs(&map) != sorted_pairs(&c["map"]) {
                     mism.push(("c10", format!("returned map {map} expected {}", c["map"])));
@@ -92,6 +96,7 @@ fn replay(cases: &str, outp: &str) {
                     mism.push(("c01", "retained registry is not dense/closed".into()));
                 }
             }
+        }
         }
         if !mism.is_empty() {
             bad += 1;
@@ -143,16 +148,17 @@ fn record(seed: u64, count: usize, path: &str) {
         let old = if n == 0 { json!([]) } else { old };
         let p = [0.0, 0.1, 0.3, 0.6, 1.0][rng.gen_range(0..5)];
         let keep: Vec<bool> = (0..n).map(|_| rng.gen_bool(p)).collect();
-        eprintln!("@{}", json!({"old": old, "keep": keep}));
+        let outside = rng.gen_bool(0.5);
+        eprintln!("@{}", json!({"old": old, "keep": keep, "outside": outside}));
         let keep_ids: Vec<usize> = keep.iter().enumerate().filter(|(_, k)| **k).map(|(i, _)| i).collect();
-        match run_retain(&old, &keep) {
+        match run_retain(&old, &keep, outside) {
             Ok((map, new, calls)) => {
                 // a second retain keeping everything must be the identity (spec growth: idempotence)
                 let all = vec![true; new.as_array().unwrap().len()];
-                let again = run_retain(&new, &all).map(|(m, r, _)| json!({"map": m, "new": r})).unwrap_or_else(|p| json!({"panic": p}));
-                out.put(&json!({"ev": "Retain", "old": old, "keep": keep_ids, "fcalls": calls, "map": map, "new": new, "again": again}));
+                let again = run_retain(&new, &all, true).map(|(m, r, _)| json!({"map": m, "new": r})).unwrap_or_else(|p| json!({"panic": p}));
+                out.put(&json!({"ev": "Retain", "old": old, "keep": keep_ids, "outside": outside, "fcalls": calls, "map": map, "new": new, "again": again}));
             }
-            Err(p) => out.put(&json!({"ev": "Retain", "old": old, "keep": keep_ids, "panic": p})),
+            Err(p) => out.put(&json!({"ev": "Retain", "old": old, "keep": keep_ids, "outside": outside, "panic": p})),
         }
     }
     out.flush();
